@@ -1,1 +1,198 @@
-fn main(){}
+//! verif harness for the API crates (C16): path selection, wire round trips, X-Matrix.
+use std::io::{BufRead, Write};
+use std::panic::{catch_unwind, AssertUnwindSafe};
+
+use http::Method;
+use ruma_common::api::{AuthScheme, MatrixVersion, Metadata, OutgoingRequest, VersionHistory};
+use serde_json::{json, Value};
+
+mod synth;
+
+const ALL_VERSIONS: [MatrixVersion; 15] = [
+    MatrixVersion::V1_0, MatrixVersion::V1_1, MatrixVersion::V1_2, MatrixVersion::V1_3, MatrixVersion::V1_4, MatrixVersion::V1_5,
+    MatrixVersion::V1_6, MatrixVersion::V1_7, MatrixVersion::V1_8, MatrixVersion::V1_9, MatrixVersion::V1_10, MatrixVersion::V1_11,
+    MatrixVersion::V1_12, MatrixVersion::V1_13, MatrixVersion::V1_14,
+];
+fn vidx(v: MatrixVersion) -> i64 {
+    ALL_VERSIONS.iter().position(|x| *x == v).map(|p| p as i64).unwrap_or(-2)
+}
+
+pub fn guard<T>(f: impl FnOnce() -> T) -> Result<T, String> {
+    catch_unwind(AssertUnwindSafe(f)).map_err(|e| {
+        if let Some(s) = e.downcast_ref::<&str>() { s.to_string() } else if let Some(s) = e.downcast_ref::<String>() { s.clone() } else { "panic".into() }
+    })
+}
+pub fn cps(s: &str) -> Vec<u32> {
+    s.chars().map(|c| c as u32).collect()
+}
+fn put(v: &Value) {
+    let out = std::io::stdout();
+    let mut l = out.lock();
+    serde_json::to_writer(&mut l, v).unwrap();
+    l.write_all(b"\n").unwrap();
+}
+
+/// Builds a (leaked) history from the model's abstract shape; paths carry their kind/version in the text.
+fn history(stable: &[i64], unstable: bool, dep: i64, rem: i64) -> VersionHistory {
+    let un: &'static [&'static str] = if unstable { Box::leak(vec!["/u/unstable"].into_boxed_slice()) } else { &[] };
+    let mut st: Vec<(MatrixVersion, &'static str)> = vec![];
+    let mut sorted = stable.to_vec();
+    sorted.sort();
+    for v in sorted {
+        st.push((ALL_VERSIONS[v as usize], Box::leak(format!("/s/{v}").into_boxed_str())));
+    }
+    let st: &'static [(MatrixVersion, &'static str)] = Box::leak(st.into_boxed_slice());
+    let d = if dep >= 0 { Some(ALL_VERSIONS[dep as usize]) } else { None };
+    let r = if rem >= 0 { Some(ALL_VERSIONS[rem as usize]) } else { None };
+    VersionHistory::new(un, st, d, r)
+}
+
+fn select_with(h: &VersionHistory, versions: &[MatrixVersion]) -> Value {
+    let meta = Metadata { method: Method::GET, rate_limited: false, authentication: AuthScheme::None, history: h.clone() };
+    match guard(|| meta.make_endpoint_url(versions, "https://h.s", &[], "")) {
+        Err(p) => json!({"kind": "panic", "msg": p}),
+        Ok(Ok(url)) => {
+            let path = url.trim_start_matches("https://h.s");
+            if path == "/u/unstable" { json!({"kind": "unstable", "ver": -1}) } else { json!({"kind": "stable", "ver": path.trim_start_matches("/s/").parse::<i64>().unwrap_or(-9)}) }
+        }
+        Ok(Err(e)) => {
+            let s = format!("{e:?}");
+            if s.contains("EndpointRemoved") { json!({"kind": "removed", "ver": -1}) } else { json!({"kind": "error", "ver": -1}) }
+        }
+    }
+}
+
+/// spec -> impl: one case per (history, lo, hi); selects with {lo, hi}, with the whole interval, and reversed
+fn select() {
+    let stdin = std::io::stdin();
+    for (i, line) in stdin.lock().lines().enumerate() {
+        let c: Value = serde_json::from_str(&line.unwrap()).unwrap();
+        let stable: Vec<i64> = c["stable"].as_array().unwrap().iter().map(|x| x.as_i64().unwrap()).collect();
+        let (lo, hi) = (c["lo"].as_i64().unwrap() as usize, c["hi"].as_i64().unwrap() as usize);
+        let r = guard(|| history(&stable, c["unstable"].as_bool().unwrap(), c["dep"].as_i64().unwrap(), c["rem"].as_i64().unwrap()));
+        let o = match r {
+            Err(p) => json!({"i": i, "construct_panic": p}),
+            Ok(h) => {
+                let pair = if lo == hi { vec![ALL_VERSIONS[lo]] } else { vec![ALL_VERSIONS[lo], ALL_VERSIONS[hi]] };
+                let interval: Vec<MatrixVersion> = (lo..=hi).rev().map(|k| ALL_VERSIONS[k]).collect();
+                json!({"i": i, "pair": select_with(&h, &pair), "interval_reversed": select_with(&h, &interval),
+                       "decision_consistent": h.stable_endpoint_for(&pair).is_some() == (select_with(&h, &pair)["kind"] == "stable")})
+            }
+        };
+        put(&o);
+    }
+}
+
+/// all 2^15 - 1 non-empty subsets of the known versions against their (min, max) representative
+fn subsets() {
+    let stdin = std::io::stdin();
+    let mut n = 0u64;
+    let mut bad = 0u64;
+    for line in stdin.lock().lines() {
+        let c: Value = serde_json::from_str(&line.unwrap()).unwrap();
+        let stable: Vec<i64> = c["stable"].as_array().unwrap().iter().map(|x| x.as_i64().unwrap()).collect();
+        let h = history(&stable, c["unstable"].as_bool().unwrap(), c["dep"].as_i64().unwrap(), c["rem"].as_i64().unwrap());
+        let mut by_pair: std::collections::HashMap<(usize, usize), Value> = Default::default();
+        for mask in 1u32..(1 << 15) {
+            let vs: Vec<MatrixVersion> = (0..15).filter(|k| mask & (1 << k) != 0).map(|k| ALL_VERSIONS[k]).collect();
+            let lo = mask.trailing_zeros() as usize;
+            let hi = 31 - mask.leading_zeros() as usize;
+            let got = select_with(&h, &vs);
+            let rep = by_pair.entry((lo, hi)).or_insert_with(|| select_with(&h, &if lo == hi { vec![ALL_VERSIONS[lo]] } else { vec![ALL_VERSIONS[lo], ALL_VERSIONS[hi]] }));
+            n += 1;
+            if &got != rep {
+                bad += 1;
+                if bad < 5 {
+                    put(&json!({"subset_mismatch": {"history": c, "mask": mask, "got": got, "min_max": rep}}));
+                }
+            }
+        }
+    }
+    put(&json!({"summary": {"subset_selections": n, "mismatches": bad}}));
+}
+
+macro_rules! meta_of {
+    ($($p:ident)::+) => { (stringify!($($p)::+), <$($p)::+::Request as OutgoingRequest>::METADATA) };
+}
+
+fn real_endpoints() -> Vec<(&'static str, Metadata)> {
+    use ruma_appservice_api as a;
+    use ruma_client_api as c;
+    use ruma_federation_api as f;
+    use ruma_identity_service_api as i;
+    use ruma_push_gateway_api as p;
+    vec![
+        meta_of!(c::profile::get_profile::v3), meta_of!(c::message::send_message_event::v3), meta_of!(c::alias::get_alias::v3),
+        meta_of!(c::membership::join_room_by_id_or_alias::v3), meta_of!(c::state::send_state_event::v3), meta_of!(c::room::get_room_event::v3),
+        meta_of!(c::media::get_content::v3), meta_of!(c::account::whoami::v3), meta_of!(c::push::set_pushrule::v3), meta_of!(c::tag::create_tag::v3),
+        meta_of!(c::directory::get_public_rooms::v3), meta_of!(c::keys::get_keys::v3), meta_of!(c::session::login::v3), meta_of!(c::redact::redact_event::v3),
+        meta_of!(c::config::set_global_account_data::v3), meta_of!(c::device::get_device::v3), meta_of!(c::user_directory::search_users::v3),
+        meta_of!(c::sync::sync_events::v3), meta_of!(c::receipt::create_receipt::v3), meta_of!(c::media::create_content::v3),
+        meta_of!(c::authenticated_media::get_content::v1), meta_of!(c::account::register::v3), meta_of!(c::membership::invite_user::v3),
+        meta_of!(c::membership::ban_user::v3), meta_of!(c::backup::get_backup_info::v3), meta_of!(c::filter::create_filter::v3),
+        meta_of!(c::presence::get_presence::v3), meta_of!(c::typing::create_typing_event::v3), meta_of!(c::room::create_room::v3),
+        meta_of!(c::space::get_hierarchy::v1), meta_of!(c::threads::get_threads::v1), meta_of!(c::relations::get_relating_events::v1),
+        meta_of!(f::event::get_event::v1), meta_of!(f::membership::create_join_event::v2), meta_of!(f::query::get_profile_information::v1),
+        meta_of!(f::discovery::get_server_keys::v2), meta_of!(f::transactions::send_transaction_message::v1), meta_of!(f::backfill::get_backfill::v1),
+        meta_of!(f::membership::create_invite::v2), meta_of!(f::knock::send_knock::v1),
+        meta_of!(a::ping::send_ping::v1), meta_of!(a::query::query_user_id::v1), meta_of!(a::event::push_events::v1),
+        meta_of!(i::lookup::get_hash_parameters::v2), meta_of!(i::keys::get_public_key::v2), meta_of!(i::association::unbind_3pid::v2),
+        meta_of!(p::send_event_notification::v1),
+    ]
+}
+
+/// impl -> spec: real endpoint histories (read through the public accessors) x version sets -> observed selection
+fn real() {
+    let mut l = 0u64;
+    for (name, meta) in real_endpoints() {
+        let h = &meta.history;
+        let stable: Vec<(i64, &str)> = h.stable_paths().map(|(v, p)| (vidx(v), p)).collect();
+        let unstable: Vec<&str> = h.unstable_paths().collect();
+        let dep = h.deprecated_in().map(vidx).unwrap_or(-1);
+        let rem = h.removed_in().map(vidx).unwrap_or(-1);
+        let mut sets: Vec<Vec<usize>> = vec![];
+        for lo in 0..15 { for hi in lo..15 { sets.push(if lo == hi { vec![lo] } else { vec![lo, hi] }); } }
+        sets.push((0..15).collect());
+        sets.push(vec![14, 3, 7]);
+        for vs in sets {
+            let versions: Vec<MatrixVersion> = vs.iter().map(|k| ALL_VERSIONS[*k]).collect();
+            let args: Vec<String> = meta._path_parameters().iter().map(|_| "x".to_owned()).collect();
+            let dargs: Vec<&dyn std::fmt::Display> = args.iter().map(|a| a as &dyn std::fmt::Display).collect();
+            let r = guard(|| meta.make_endpoint_url(&versions, "https://h.s", &dargs, ""));
+            // which template was used? substitute the arguments into every known path
+            let fill = |p: &str| p.split('/').map(|s| if s.starts_with(':') { "x" } else { s }).collect::<Vec<_>>().join("/");
+            let (kind, ver) = match &r {
+                Err(_) => ("panic".to_owned(), -9),
+                Ok(Err(e)) => (if format!("{e:?}").contains("EndpointRemoved") { "removed".to_owned() } else { "error".to_owned() }, -1),
+                Ok(Ok(url)) => {
+                    let path = url.trim_start_matches("https://h.s");
+                    // the newest stable path with that text (several versions may share one path text)
+                    if let Some((v, _)) = stable.iter().rev().find(|(_, p)| fill(p) == path) {
+                        ("stable".to_owned(), *v)
+                    } else if unstable.iter().any(|p| fill(p) == path) { ("unstable".to_owned(), -1) } else { ("unknown-path".to_owned(), -9) }
+                }
+            };
+            l += 1;
+            put(&json!({"kind0": "select", "l": l, "endpoint": name, "stable": stable.iter().map(|(v, _)| *v).collect::<Vec<_>>(), "unstable": !unstable.is_empty(),
+                        "dep": dep, "rem": rem, "versions": vs, "kind": kind, "ver": ver,
+                        "same_text_as_older": false}));
+        }
+    }
+}
+
+fn main() {
+    let args: Vec<String> = std::env::args().skip(1).collect();
+    std::panic::set_hook(Box::new(|_| {}));
+    match args.first().map(|s| s.as_str()) {
+        Some("select") => select(),
+        Some("subsets") => subsets(),
+        Some("real") => real(),
+        Some("wire") => synth::wire(&args[1..]),
+        Some("xmatrix") => synth::xmatrix(),
+        _ => {
+            eprintln!("usage: vh-api select|subsets|real|wire|xmatrix");
+            std::process::exit(2);
+        }
+    }
+}
+
